@@ -15,7 +15,7 @@ RULE = ("random scripts of 4-40 segments over 1-6 interleaved flows (tuples diff
         "numbers next to 2^32 so that seq+len wraps, payload lengths 0..1460 (random bytes, valid application requests of every protocol, requests with one grammar fault, "
         "parser-hostile strings, in any order on one connection), extra flags (URG/ECE/CWR/NS/FIN/SYN) next to PSH|ACK, bare ACK / RST / FIN|ACK segments, data before any "
         "SYN, after FIN|ACK, after a table reset, control segments carrying the flow's own cookie+1, and flows whose cookie is exactly 0 / 0xFFFFFFFF (ack 0 must be accepted resp. rejected); every reply (or silence) and the table size are compared with the "
-        "connection model. Non-trivial = script with at least one accepted and one rejected data segment; distinct = "
+        "connection model; logger / verbosity at random, and 8 % of the scripts run on a responder already holding 300 / 4200 / 9000 connections of other clients. Non-trivial = script with at least one accepted and one rejected data segment; distinct = "
         "distinct abstract scripts (per step: flow, flags, ack class, length class, outcome).")
 ASSUME = ["the cookie of a flow is whatever sequence number the responder puts in the SYN-ACK of a probe SYN on that flow",
           "flows whose cookie is 0x00000000 / 0xFFFFFFFF (so that cookie+1 wraps to 0) come from witnesses.json (brute-forced offline under the assumption that the cookie is SipHash-2-4 of the tuple; re-validated by a probe SYN at run time and skipped if stale)",
